@@ -391,6 +391,7 @@ func histCases(prop, tier string, seed int64) []core.Case {
 			cases = append(cases, core.Case{ID: fmt.Sprintf("queued-at-disconnect/maxpend=%d", map[bool]int{false: 0, true: 4}[dotu]), Run: func(ctx *core.Ctx) core.Result {
 				return c11QueuedAtDisconnect(ctx, "C04", map[bool]int{false: 0, true: 4}[dotu])
 			}})
+			cases = append(cases, core.Case{ID: fmt.Sprintf("given-up-twice-at-once/dotu=%v", dotu), Run: func(ctx *core.Ctx) core.Result { return runGivenUpTwice(ctx, dotu) }})
 			cases = append(cases, core.Case{ID: fmt.Sprintf("same-number-race/dotu=%v", dotu), Run: func(ctx *core.Ctx) core.Result {
 				return runSameNumberRace(ctx, dotu, rounds)
 			}})
@@ -593,6 +594,130 @@ func runMalformedWrites(dotu bool) core.Result {
 		h.Fatal = true // the connection may be gone: skip the destroy accounting that needs replies
 		h.Finish()
 	}
+	return res
+}
+
+// runGivenUpTwice: a fid is given up from two sides at about the same time while the implementation's FidDestroy is
+// slow: the connection closes (its close processing reports the fid) while a Tclunk / Tremove of that fid, held in the
+// implementation, is answered; or a request using the fid finishes after a Tclunk of it was answered. However the two
+// overlap, the implementation hears of the fid exactly once.
+func runGivenUpTwice(ctx *core.Ctx, dotu bool) core.Result {
+	var res core.Result
+	ver := "9P2000"
+	if dotu {
+		ver = "9P2000.u"
+	}
+	for round := 0; round < 12 && len(res.Violations) == 0; round++ {
+		ctx.Beat()
+		s := NewSess(Config{Dotu: dotu, Msize: 8192, Maxpend: []int{0, 4}[round%2]})
+		c := s.Dial()
+		if r, err := c.Version(8192, ver, W); err != nil || r.Msg == nil {
+			res.Inconclusive = "c04 twice: version failed"
+			return res
+		}
+		tag := uint16(0)
+		rpc := func(m *wire.Msg) *wire.Msg {
+			tag++
+			m.Tag = tag
+			r, err := c.Rpc(m, W)
+			if err != nil || r.Msg == nil {
+				return nil
+			}
+			return r.Msg
+		}
+		if a := rpc(&wire.Msg{Type: wire.Tattach, Fid: 1, Afid: wire.NOFID, Uname: "root", Nuname: 0}); a == nil || a.Type != wire.Rattach {
+			res.Inconclusive = "c04 twice: attach failed"
+			return res
+		}
+		rpc(&wire.Msg{Type: wire.Twalk, Fid: 1, Newfid: 20, Wname: []string{"f"}})
+		seq0 := s.Log.Seq()
+		rpc(&wire.Msg{Type: wire.Tstat, Fid: 20})
+		var tok int64
+		for _, ev := range s.Log.Snapshot(seq0) {
+			if ev.Kind == "op" && ev.Op == "Stat" {
+				tok = ev.Fid
+			}
+		}
+		if tok == 0 {
+			res.Inconclusive = "c04 twice: fid token not learned"
+			return res
+		}
+		slow := make(chan struct{})
+		s.Ops.SetDestroyGate(tok, slow)
+		how := []string{"close-then-clunk-answer", "close-then-remove-answer", "clunk-then-user-finishes", "close-then-user-finishes"}[round%4]
+		det := map[string]interface{}{"dotu": dotu, "round": round, "how": how}
+		heldType := map[string]uint8{"close-then-clunk-answer": wire.Tclunk, "close-then-remove-answer": wire.Tremove, "clunk-then-user-finishes": wire.Tstat, "close-then-user-finishes": wire.Tread}[how]
+		if heldType == wire.Tread {
+			rpc(&wire.Msg{Type: wire.Topen, Fid: 20, Mode: 0})
+		}
+		plan := script.NewPlan()
+		plan.Gate, plan.Entered = make(chan struct{}), make(chan struct{})
+		tag++
+		held := &wire.Msg{Type: heldType, Tag: tag, Fid: 20, Count: 8}
+		s.Ops.SetPlan(c.ID, held.Tag, plan)
+		_ = c.Send(held)
+		select {
+		case <-plan.Entered:
+		case <-time.After(W):
+			res.Inconclusive = "c04 twice: held request never started"
+			close(slow)
+			return res
+		}
+		destroys := func() int {
+			n := 0
+			for _, ev := range s.Log.Snapshot(seq0) {
+				if ev.Kind == "destroy" && ev.Fid == tok {
+					n++
+				}
+			}
+			return n
+		}
+		// first side: the report that stays inside the slow FidDestroy
+		if how == "clunk-then-user-finishes" {
+			tag++
+			_ = c.Send(&wire.Msg{Type: wire.Tclunk, Tag: tag, Fid: 20})
+		} else {
+			c.Hangup()
+		}
+		inside := waitFor(W, func() bool { return destroys() >= 1 })
+		if !inside {
+			res.Inconclusive = "c04 twice: the first report never reached FidDestroy"
+			close(plan.Gate)
+			close(slow)
+			return res
+		}
+		// second side: the held request is answered and lets go of the fid while the first FidDestroy is still running
+		seq1 := s.Log.Seq()
+		close(plan.Gate)
+		waitFor(W, func() bool {
+			for _, ev := range s.Log.Snapshot(seq1) {
+				if ev.Kind == "exit" && ev.Tag == held.Tag {
+					return true
+				}
+			}
+			return false
+		})
+		// (a second FidDestroy would have been entered by now: the answer's processing gives the fid up before it returns)
+		time.Sleep(3 * time.Millisecond)
+		res.Evals++
+		n := destroys()
+		close(slow)
+		if how != "clunk-then-user-finishes" {
+			s.Ctl.WaitPassed("close.exit", c.ID, sched.AnyTag, 1, W)
+		} else {
+			c.Quiesce(W)
+			c.Hangup()
+			s.Ctl.WaitPassed("close.exit", c.ID, sched.AnyTag, 1, W)
+		}
+		if m := destroys(); m > n {
+			n = m
+		}
+		if n != 1 {
+			res.Violate(fmt.Sprintf("C04;given-up-twice;destroy-count;n=%d;%s", n, how), fmt.Sprintf("a fid given up from two sides while FidDestroy was slow (%s) was reported destroyed %d times", how, n), det)
+		}
+		res.Sig(fmt.Sprintf("given-up-twice|%v|%s|mp=%d", dotu, how, round%2))
+	}
+	res.Sample(map[string]interface{}{"scenario": "fid given up by the closing connection / a Tclunk while another request's answer releases it, slow FidDestroy", "dotu": dotu})
 	return res
 }
 
